@@ -12,10 +12,12 @@ fn check_factors(n: &Uint, factors: &[Uint]) -> Result<(), FactoringFailure> {
 }
 //! ---- annotated ----
 fn check_factors(n: &Uint, factors: &[Uint]) -> (r: Result<(), FactoringFailure>)
+    requires bitlen(uv(*n)) <= 512,
     ensures r is Ok ==> seq_prod(factors@) % pow_w(16) == uv(*n),
 {
     if factors.len() == 1 {
         let p = &factors[0];
+        proof { axiom_buint_eq(*n, *p); }
         if !(n == p) { verif_diverge(); }
         if !pseudoprime(*p) {
             return Err(FactoringFailure);
